@@ -8,6 +8,7 @@ step machine (models/stepmachine.py) written from docs/reference/dynamic_scenari
 """
 
 import hashlib
+import itertools
 
 from mc import dyn, dyncmp, explorer
 from mc.explorer import HarnessError
@@ -17,6 +18,7 @@ ID = "C12"
 LEVEL = "model_checking"
 
 HORIZON = 5
+RERUN_TABLES = 3
 
 
 def sim_variants(tier):
@@ -70,11 +72,21 @@ def check_program(item):
         return _pack(out)
     two = len(prog["agents"]) > 1
     variants = sim_variants(tier)
+    jobs = [(vi, var, None) for vi, var in enumerate(variants)]
     if tier == "quick":
-        # quick: the two (timestep, maxSteps) variants alternate over the enumeration
-        variants = variants[idx % 2 : idx % 2 + 1]
-    for vi, var in enumerate(variants):
-        for ti, tables in enumerate(tables_for(prog, tier, two)):
+        # quick: the two (timestep, maxSteps) variants alternate over the enumeration; the other
+        # variant is then run on the SAME scene (a non-initial state: the scenario object has
+        # been simulated with another time step before) for the first RERUN_TABLES tables
+        k = idx % 2
+        jobs = [(k, variants[k], None), (1 - k, variants[1 - k], RERUN_TABLES)]
+    first = None
+    for vi, var, limit in jobs:
+        for ti, tables in enumerate(itertools.islice(tables_for(prog, tier, two), limit)):
+            if first is None:
+                first = {"var": var, "tables": tables}
+            prior = first if first["var"] != var else None
+            if limit is not None:
+                out["reruns"] = out.get("reruns", 0) + 1
             if two:
                 # every schedule the simulator may return, at most 2 steps with a non-default permutation
                 def once():
@@ -110,7 +122,7 @@ def check_program(item):
                         (
                             sig,
                             f"implementation and reference step machine disagree ({diff})\nvariant={var} tables={ {k: v for k, v in tables.items() if any(v)} } schedule={res.get('schedule')}\n{text}",
-                            {"idx": idx, "prog": prog, "tier": tier, "var": var, "tables": tables, "schedule": res.get("schedule"), "kind": "run"},
+                            {"idx": idx, "prog": prog, "tier": tier, "var": var, "tables": tables, "schedule": res.get("schedule"), "kind": "run", "prior": prior},
                         )
                     )
                     if len(out["violations"]) > 5:
@@ -128,7 +140,7 @@ def run(ctx):
     items = [(idx, prog, ctx.tier) for idx, prog in gd.c12_programs(ctx.tier)]
     items += [(idx, prog, ctx.tier) for idx, prog in gd.c12_modular_programs(ctx.tier, start_index=len(items))]
     items = ctx.rotate(items)
-    runs = states = edges = progs = sched_dev = nontrivial = 0
+    runs = states = edges = progs = sched_dev = nontrivial = reruns = 0
     types = {}
     for r in ctx.pmap(check_program, items, chunksize=4):
         progs += 1
@@ -137,6 +149,7 @@ def run(ctx):
         edges += r["edges"]
         sched_dev += r["sched_dev"]
         nontrivial += r.get("nontrivial", 0)
+        reruns += r.get("reruns", 0)
         for k, v in r["types"].items():
             types[k] = types.get(k, 0) + v
         for sig, desc, case in r["violations"]:
@@ -163,6 +176,7 @@ def run(ctx):
         samples=samples,
         outcome_kinds=types,
         runs_with_nondefault_schedule=sched_dev,
+        reruns_of_a_scene_with_another_timestep=reruns,
         bounds={"horizon": HORIZON, "table_deviation": 2, "schedule_deviation": 2, "variants": sim_variants(ctx.tier)},
     )
     ctx.assumptions += [
@@ -184,6 +198,12 @@ def replay(ctx, case):
     scene, _ = sc.generate(maxIterations=5)
     sched = [tuple(p) if p is not None else None for p in (case.get("schedule") or [])]
     res, diff = run_case(scene, prog, case["tables"], case["var"], sched or None)
+    if diff is None and case.get("prior"):
+        # the violation needs history: the same scene was first simulated with other parameters
+        sc = dyn.compile_scenario(text, **({"scenario": prog["main"]} if prog.get("main") else {}))
+        scene, _ = sc.generate(maxIterations=5)
+        run_case(scene, prog, case["prior"]["tables"], case["prior"]["var"], None)
+        res, diff = run_case(scene, prog, case["tables"], case["var"], sched or None)
     if diff is not None:
         sig = f"{diff['kind']}-mismatch"
         if prog.get("main") and "tws" in gd.conditions_of(prog):
